@@ -64,7 +64,7 @@ def gen_case(rng: Rng, i: int, tier: str):
     hdr = r.wpick([(3, "enc"), (1, "raw"), (4, "crypt")])
     sess = {"mode": "w", "chain": chain, "password": password, "header": hdr, "header_via": r.pick(["ctor", "setter"]), "ops": ops}
     wrong = r.pick(["different", "prefix", "case", "none", "suffix"])
-    return {"session": sess, "knobs": knobs, "rng": r.randrange(1 << 30), "wrong": wrong, "open": r.pick(["stream", "path"])}
+    return {"session": sess, "knobs": knobs, "rng": r.randrange(1 << 30), "wrong": wrong, "open": r.pick(["stream", "path", "anon"])}
 
 
 def _windows(data, w=24):
@@ -104,7 +104,14 @@ def run_case(case):
     images = []
     rand = SimRandom(Rng(case["rng"], "iv"))
     model = None
+    import random as _random
+
+    saved_state = _random.getstate()
     for k in range(2):
+        # the seam stands for the operating system's entropy source, which never repeats; everything process-local - the
+        # interpreter's global Mersenne Twister above all - is put into the same state before each archive, as it is in
+        # two forked workers or in two runs of a program that seeds it: an IV derived from such state would repeat
+        _random.seed(case["rng"])
         fs = SimFS(buffer_size=knobs["bufsize"])
         with Seams(fs=fs, blocksize=knobs["block"], memlimit=knobs["chunk"], clock=SimClock(tick=0.001), rand=rand):
             try:
@@ -112,12 +119,15 @@ def run_case(case):
             except rw.Rejected:
                 res["rejected"][fam] = 1
                 res["digest"] = digest_of(["rejected", fam])
+                _random.setstate(saved_state)
                 return res
         if err is not None:
             viol("write_failed", "write", "encrypted session with chain %s raised %r" % (fam, err), error=type(err).__name__)
+            _random.setstate(saved_state)
             return res
         images.append(fs.get(rw.SIM_PATH).snapshot())
         model = rw.pairs(added)
+    _random.setstate(saved_state)
     plain = {n: d for n, d in model}
     # ---------------- (1) nothing leaks ----------------
     for k, img in enumerate(images):
@@ -211,7 +221,7 @@ def run_case(case):
             with StepCounter(budget) as sc:
                 with Seams(fs=fs, inline_threads=True):
                     try:
-                        target = rsess.READ_PATH if case["open"] == "path" else SimRaw(fs.get(rsess.READ_PATH), readable=True)
+                        target = rsess.READ_PATH if case["open"] == "path" else SimRaw(fs.get(rsess.READ_PATH), readable=True, anonymous=case["open"] == "anon")
                         z = py7zr.SevenZipFile(target, "r", password=pw)
                         try:
                             names = z.getnames()
